@@ -263,6 +263,7 @@ def run(index, rep, tier):
         rep.rule("R01.8", "the taxon -> bit assignment is stable: the accession-index state is written only by the namespace's maintaining functions and add_taxon pairs both maps with the monotone counter (shared with R10.1-R10.3)")
         from . import c10
         c10.index_state_rules(index, rep, {"R10.1": "R01.8", "R10.2": "R01.8", "R10.3": "R01.8"})
+        c10.remove_release_rule(index, rep, "R01.8")
 
     # ---- R01.6
     with rep.section("R01.6"):
